@@ -34,12 +34,12 @@ const (
 )
 
 type aclScript struct {
-	ids   []string                           // ids[k] = id of record k (0 = ACL root)
-	recs  []*consensusproto.RawRecordWithId  // recs[k] for k >= 1
-	index map[string]int                     // record id -> k
-	perm  []map[string]int                   // perm[k][account name]
-	accs  map[string]*simlib.Account         // by name
-	byKey map[string]*simlib.Account         // by marshalled public key
+	ids   []string                          // ids[k] = id of record k (0 = ACL root)
+	recs  []*consensusproto.RawRecordWithId // recs[k] for k >= 1
+	index map[string]int                    // record id -> k
+	perm  []map[string]int                  // perm[k][account name]
+	accs  map[string]*simlib.Account        // by name
+	byKey map[string]*simlib.Account        // by marshalled public key
 	names []string
 }
 
@@ -124,10 +124,10 @@ func (w *world) buildScript(extra []*simlib.Account) *aclScript {
 
 // decoded change
 type dchange struct {
-	id   string
-	raw  []byte
-	rtc  *treechangeproto.RawTreeChange
-	tc   *treechangeproto.TreeChange
+	id  string
+	raw []byte
+	rtc *treechangeproto.RawTreeChange
+	tc  *treechangeproto.TreeChange
 }
 
 func decodeChange(raw *treechangeproto.RawTreeChangeWithId) (*dchange, error) {
@@ -290,7 +290,14 @@ func (w *world) rollbackCheck(rep *replica, before applySnap, err error, what st
 	w.r.Probe("delivery-rejected")
 	switch {
 	case before.heads != after.heads:
-		w.r.Fail("rejected-batch-changed-state", "heads", "%s: %s was rejected (%v) but heads changed", rep.name, what, err)
+		// One specific cause is a recorded finding: an earlier accepted change (authentic, authorised) merged a
+		// branch that lies outside the subtree of the snapshot it names as its base; the stored common snapshot
+		// then does not dominate that head, and the rebuild from storage that follows a rejected batch drops it.
+		sig := "heads"
+		if w.lostHeadsOutsideCommonSnapshot(rep, before.heads, after.heads) {
+			sig = "heads:head-outside-common-snapshot"
+		}
+		w.r.Fail("rejected-batch-changed-state", sig, "%s: %s was rejected (%v) but heads changed from [%s] to [%s] (stored changes before: %d, after: %d)", rep.name, what, err, shortList(before.heads), shortList(after.heads), len(strings.Split(before.stored, ",")), len(strings.Split(after.stored, ",")))
 	case before.seq != after.seq:
 		w.r.Fail("rejected-batch-changed-state", "iteration", "%s: %s was rejected (%v) but the presented sequence changed", rep.name, what, err)
 	case before.stored != after.stored:
@@ -630,4 +637,65 @@ func cloneTC(tc *treechangeproto.TreeChange) *treechangeproto.TreeChange {
 	c := &treechangeproto.TreeChange{}
 	must(c.UnmarshalVT(b))
 	return c
+}
+
+func shortList(csv string) string {
+	var l []string
+	for _, id := range strings.Split(csv, ",") {
+		l = append(l, short(id))
+	}
+	return strings.Join(l, ",")
+}
+
+// lostHeadsOutsideCommonSnapshot: every head that disappeared has an ancestor path to the tree's root that
+// does not pass through the stored common snapshot (and nothing else changed in the head set).
+func (w *world) lostHeadsOutsideCommonSnapshot(rep *replica, beforeCsv, afterCsv string) bool {
+	after := map[string]bool{}
+	for _, h := range strings.Split(afterCsv, ",") {
+		after[h] = true
+	}
+	before := map[string]bool{}
+	var lost []string
+	for _, h := range strings.Split(beforeCsv, ",") {
+		before[h] = true
+		if !after[h] {
+			lost = append(lost, h)
+		}
+	}
+	for h := range after {
+		if !before[h] {
+			return false // a head appeared: a different failure
+		}
+	}
+	e, err := rep.ss.HeadStorage().GetEntry(ctxb, w.treeId)
+	if err != nil || len(lost) == 0 {
+		return false
+	}
+	_, byId := rep.stored()
+	var escapes func(id string, seen map[string]bool) bool
+	escapes = func(id string, seen map[string]bool) bool {
+		if id == e.CommonSnapshot || seen[id] {
+			return false
+		}
+		seen[id] = true
+		c, ok := byId[id]
+		if !ok {
+			return false
+		}
+		if len(c.prev) == 0 {
+			return true // reached the root without meeting the common snapshot
+		}
+		for _, p := range c.prev {
+			if escapes(p, seen) {
+				return true
+			}
+		}
+		return false
+	}
+	for _, h := range lost {
+		if !escapes(h, map[string]bool{}) {
+			return false
+		}
+	}
+	return true
 }
